@@ -106,6 +106,9 @@ def _method_info(facts, f):
     c = cache.get((strip_tmpl(f.cls), strip_tmpl(f.name).split("::")[-1]), [])
     if c:
         return c[0]
+    if f.d.get("kind") == "method" and f.d.get("access") in (0, 1, 2):
+        # an instantiation of a member function template: the extractor records the template's access on the function itself
+        return {"access": f.d["access"], "kind": "method", "virtual": f.d.get("virtual")}
     return {"access": 0, "kind": f.d.get("kind"), "virtual": f.d.get("virtual")} if f.d.get("kind") == "method" else None
 
 
